@@ -255,7 +255,7 @@ def vm_crosscheck(cases, tag, per_file=200, timeout=600):
         fn = os.path.join(d, "cases_%d.v" % (k // per_file))
         with open(fn, "w", encoding="utf-8") as f:
             f.write("From Coq Require Import List Ascii String ZArith.\n"
-                    "From Shexer Require Import Lib.PyStr Model.Entry.\nImport ListNotations.\n"
+                    "From Shexer Require Import Lib.PyStr Model.Table Model.Entry.\nImport ListNotations.\n"
                     "Definition cases : list (str * table * table) := [\n")
             f.write(";\n".join("(%s, %s, %s)" % (coq_str_lit(n), coq_table(i), coq_table(o)) for n, i, o in chunk))
             f.write("].\nEval vm_compute in (mismatches cases).\n")
